@@ -113,6 +113,21 @@ pub async fn restore(
             });
             continue;
         }
+        if *entry.apath() != Apath::root()
+            && matches!(entry.kind(), Kind::Dir | Kind::File)
+            && std::fs::symlink_metadata(&path).is_ok_and(|m| m.file_type().is_symlink())
+        {
+            // When overwriting, the destination may already hold a symlink under this name, for
+            // example from restoring a version in which it was one. Replace the link rather than
+            // following it, which would write to whatever it points to.
+            if let Err(source) = std::fs::remove_file(&path) {
+                monitor.error(Error::RestoreFile {
+                    path: path.clone(),
+                    source,
+                });
+                continue;
+            }
+        }
         match entry.kind() {
             Kind::Dir => {
                 monitor.count(Counter::Dirs, 1);
